@@ -1077,6 +1077,23 @@ def flip(a, axis=None):
     if axis is None: raise NeedsContract('flip without axis')
     axis = axis % a.ndim; n = a.shape[axis]; f = a.snapshot()
     return ndarray.fresh(a.shape, lambda i: f(i[:axis] + (n - 1 - i[axis],) + i[axis + 1:]), a.dtype)
+def searchsorted(a, v, side='left'):
+    """numpy's binary search, executed on a concrete-length 1-D `a` for every (possibly symbolic) v: lo, hi = 0, n; while lo < hi: mid = (lo + hi) // 2;
+    a[mid] < v (left) / a[mid] <= v (right) ? lo = mid + 1 : hi = mid.  On an unsorted `a` this is what numpy computes as well (its result is then
+    not an insertion point, which is the point of modelling the search rather than its specification)."""
+    a = asarray(a)
+    if a.ndim != 1 or not isinstance(a.shape[0], int): raise NeedsContract('searchsorted on an array of symbolic length')
+    n = a.shape[0]; fa = a.snapshot()
+    def search(x, lo, hi):
+        if lo >= hi: return lo
+        mid = (lo + hi) // 2; e = fa((mid,))
+        c = (e < x) if side == 'left' else (e <= x)
+        if isinstance(c, (bool, _rnp.bool_)): return search(x, mid + 1, hi) if c else search(x, lo, mid)
+        return Ite(c, search(x, mid + 1, hi), search(x, lo, mid))
+    if isinstance(v, ndarray):
+        fv = v.snapshot()
+        return ndarray.fresh(v.shape, lambda i: core.cast(search(fv(i), 0, n), 'int64'), 'int64')
+    return search(v, 0, n)
 def stack(arrs, axis=0):
     arrs = [asarray(a) for a in arrs]
     nd = arrs[0].ndim + 1; axis = axis % nd
